@@ -77,16 +77,6 @@ M = [
  ("m36-reader-no-munmap-on-bad-offset", ["C18"], "mtbl/reader.c",
   "\t    (end < r->m.index_block_offset)) {  /* offset causes overflow */\n\t\tmtbl_reader_destroy(&r);\n\t\treturn (NULL);",
   "\t    (end < r->m.index_block_offset)) {  /* offset causes overflow */\n\t\tfree(r);\n\t\treturn (NULL);"),
- ("m37-index-offset-overflow-check-dropped", ["C19"], "mtbl/reader.c",
-  "\tif ((end > r->len_data) ||\t\t/* offset too large */\n\t    (end < r->m.index_block_offset)) {", "\tif ((end > r->len_data)) {"),
- ("m38-block-seek-continue-from-current-wrong", ["C03", "C05"], "mtbl/block.c",
-  "\t\tif (cmp < 0)\n\t\t\tfrom_start = false;", "\t\tif (cmp <= 0 || start_ri + 1 == bi->num_restarts)\n\t\t\tfrom_start = false;"),
- ("m39-seek-reuse-block-without-first-reset", ["C03"], "mtbl/reader.c",
-  "\tblock_iter_seek(it->bi, key, len_key);\n\n\tit->first = true;\n\tit->valid = true;\n\n\treturn (mtbl_res_success);",
-  "\tblock_iter_seek(it->bi, key, len_key);\n\n\tit->first = it->first || it->valid;\n\tit->valid = true;\n\n\treturn (mtbl_res_success);"),
- ("m40-merger-forward-seek-ignores-finished", ["C05"], "mtbl/merger.c",
-  "\t\t\tif (e == NULL) {\n\t\t\t\tit->finished = true;\n\t\t\t\tbreak;\n\t\t\t}\n\t\t}\n\t}\n\n\t/*\n\t * If the seek operation changed",
-  "\t\t\tif (e == NULL) {\n\t\t\t\tbreak;\n\t\t\t}\n\t\t}\n\t}\n\n\t/*\n\t * If the seek operation changed"),
 ]
 
 def main():
